@@ -57,30 +57,30 @@ theorem applyMod_inv_all (e e' : EFile) (op : Op) (hv : ValidArgsAll e op) (hi :
   | setRequireSeparateIndirect w r =>
     simp only [applyMod, Option.some.injEq] at h
     exact setRequireSeparateIndirect_inv e e' w (permOf r) (permOf_perm r) hv.1 hi hv.2.1 hv.2.2 h
-  | addModule p => exact applyMod_inv e e' _ hv hi h
-  | addGo v => exact applyMod_inv e e' _ hv hi h
-  | dropGo => exact applyMod_inv e e' _ hv hi h
-  | addToolchain n => exact applyMod_inv e e' _ hv hi h
-  | dropToolchain => exact applyMod_inv e e' _ hv hi h
-  | addGodebug k v => exact applyMod_inv e e' _ hv hi h
-  | dropGodebug k => exact applyMod_inv e e' _ hv hi h
-  | addRequire p v => exact applyMod_inv e e' _ hv hi h
-  | addNewRequire p v i => exact applyMod_inv e e' _ hv hi h
-  | dropRequire p => exact applyMod_inv e e' _ hv hi h
-  | addExclude p v => exact applyMod_inv e e' _ hv hi h
-  | dropExclude p v => exact applyMod_inv e e' _ hv hi h
-  | addReplace a b c d => exact applyMod_inv e e' _ hv hi h
-  | dropReplace a b => exact applyMod_inv e e' _ hv hi h
-  | addRetract lo hi' why => exact applyMod_inv e e' _ hv hi h
-  | dropRetract lo hi' => exact applyMod_inv e e' _ hv hi h
-  | addTool p => exact applyMod_inv e e' _ hv hi h
-  | dropTool p => exact applyMod_inv e e' _ hv hi h
-  | sortBlocks => exact applyMod_inv e e' _ hv hi h
-  | cleanup => exact applyMod_inv e e' _ hv hi h
-  | addUse d m => exact applyMod_inv e e' _ hv hi h
-  | addNewUse d m => exact applyMod_inv e e' _ hv hi h
-  | dropUse d => exact applyMod_inv e e' _ hv hi h
-  | setUse w rev => exact applyMod_inv e e' _ hv hi h
+  | addModule p => exact applyMod_inv e e' _ (by simpa [ValidArgsAll] using hv) hi h
+  | addGo v => exact applyMod_inv e e' _ (by simpa [ValidArgsAll] using hv) hi h
+  | dropGo => exact applyMod_inv e e' _ (by simpa [ValidArgsAll] using hv) hi h
+  | addToolchain n => exact applyMod_inv e e' _ (by simpa [ValidArgsAll] using hv) hi h
+  | dropToolchain => exact applyMod_inv e e' _ (by simpa [ValidArgsAll] using hv) hi h
+  | addGodebug k v => exact applyMod_inv e e' _ (by simpa [ValidArgsAll] using hv) hi h
+  | dropGodebug k => exact applyMod_inv e e' _ (by simpa [ValidArgsAll] using hv) hi h
+  | addRequire p v => exact applyMod_inv e e' _ (by simpa [ValidArgsAll] using hv) hi h
+  | addNewRequire p v i => exact applyMod_inv e e' _ (by simpa [ValidArgsAll] using hv) hi h
+  | dropRequire p => exact applyMod_inv e e' _ (by simpa [ValidArgsAll] using hv) hi h
+  | addExclude p v => exact applyMod_inv e e' _ (by simpa [ValidArgsAll] using hv) hi h
+  | dropExclude p v => exact applyMod_inv e e' _ (by simpa [ValidArgsAll] using hv) hi h
+  | addReplace a b c d => exact applyMod_inv e e' _ (by simpa [ValidArgsAll] using hv) hi h
+  | dropReplace a b => exact applyMod_inv e e' _ (by simpa [ValidArgsAll] using hv) hi h
+  | addRetract lo hi' why => exact applyMod_inv e e' _ (by simpa [ValidArgsAll] using hv) hi h
+  | dropRetract lo hi' => exact applyMod_inv e e' _ (by simpa [ValidArgsAll] using hv) hi h
+  | addTool p => exact applyMod_inv e e' _ (by simpa [ValidArgsAll] using hv) hi h
+  | dropTool p => exact applyMod_inv e e' _ (by simpa [ValidArgsAll] using hv) hi h
+  | sortBlocks => exact applyMod_inv e e' _ (by simpa [ValidArgsAll] using hv) hi h
+  | cleanup => exact applyMod_inv e e' _ (by simpa [ValidArgsAll] using hv) hi h
+  | addUse d m => exact applyMod_inv e e' _ (by simpa [ValidArgsAll] using hv) hi h
+  | addNewUse d m => exact applyMod_inv e e' _ (by simpa [ValidArgsAll] using hv) hi h
+  | dropUse d => exact applyMod_inv e e' _ (by simpa [ValidArgsAll] using hv) hi h
+  | setUse w rev => exact applyMod_inv e e' _ (by simpa [ValidArgsAll] using hv) hi h
 
 /-- the arguments of every operation of a session are valid in the state in which the operation runs -/
 def RunValid : EFile → List Op → Prop
@@ -122,5 +122,82 @@ theorem runOps_inv_all (ops : List Op) : ∀ (e : EFile) (res0 : List Bool) (i :
 theorem typed_eq_tree_all (e e' : EFile) (ops : List Op) (res : List Bool) (hi : Inv e) (hv : RunValid e ops)
     (h : runOps applyMod e ops [] 0 = .done e' res) : Inv (cleanup e') :=
   cleanup_inv e' (runOps_inv_all ops e [] 0 e' res hv hi h)
+
+
+/-! ### executable checks of the hypotheses (for concrete instances) -/
+
+def validArgsTB : Op → Bool
+  | .addGodebug k _ => !k.isEmpty
+  | .dropGodebug k => !k.isEmpty
+  | .addRequire p _ => !p.isEmpty
+  | .addNewRequire p _ _ => !p.isEmpty
+  | .dropRequire p => !p.isEmpty
+  | .setRequire _ _ => false
+  | .setRequireSeparateIndirect _ _ => false
+  | .addExclude p _ => !p.isEmpty
+  | .dropExclude p _ => !p.isEmpty
+  | .addReplace op _ _ _ => !op.isEmpty
+  | .dropReplace op _ => !op.isEmpty
+  | .dropRetract lo hi => !lo.isEmpty || !hi.isEmpty
+  | .addTool p => !p.isEmpty
+  | .dropTool p => !p.isEmpty
+  | _ => true
+
+theorem validArgsTB_sound (op : Op) (h : validArgsTB op = true) : ValidArgsT op := by
+  cases op <;> simp only [validArgsTB, ValidArgsT, Bool.or_eq_true] at h ⊢ <;>
+    first
+      | trivial
+      | exact isEmpty_false_ne h
+      | (cases h; done)
+      | exact h.elim (fun h => Or.inl (isEmpty_false_ne h)) (fun h => Or.inr (isEmpty_false_ne h))
+
+def goodWantB (w : List Want) : Bool := decide (w.Pairwise (fun a b => a.path ≠ b.path)) && w.all (fun x => !x.path.isEmpty)
+
+theorem goodWantB_sound (w : List Want) (h : goodWantB w = true) : GoodWant w := by
+  simp only [goodWantB, Bool.and_eq_true, decide_eq_true_eq, List.all_eq_true] at h
+  exact ⟨h.1, fun x hx => isEmpty_false_ne (h.2 x hx)⟩
+
+def bulkOKB (e : EFile) (w : List Want) : Bool :=
+  goodWantB w && e.f.require.all liveRq && (view e.f.syn.stmts).all (fun v => decide (MarkerSettable v.suffix))
+
+theorem bulkOKB_sound (e : EFile) (w : List Want) (h : bulkOKB e w = true) :
+    GoodWant w ∧ (∀ r ∈ e.f.require, liveRq r = true) ∧ NoNestedIndirectMarker e := by
+  simp only [bulkOKB, Bool.and_eq_true] at h
+  exact ⟨goodWantB_sound w h.1.1, List.all_eq_true.1 h.1.2, NoNestedIndirectMarker.of_all e h.2⟩
+
+def validArgsAllB (e : EFile) : Op → Bool
+  | .setRequire w _ => bulkOKB e w
+  | .setRequireSeparateIndirect w _ => bulkOKB e w
+  | op => validArgsTB op
+
+theorem validArgsAllB_sound (e : EFile) (op : Op) (h : validArgsAllB e op = true) : ValidArgsAll e op := by
+  cases op <;> first
+    | exact bulkOKB_sound e _ h
+    | (simp only [ValidArgsAll]; exact validArgsTB_sound _ h)
+
+/-- `RunValid` as a Boolean test that follows the run -/
+def runValidB : EFile → List Op → Bool
+  | _, [] => true
+  | e, op :: ops =>
+    validArgsAllB e op &&
+      (match applyMod e op with
+       | some (.ok e') => runValidB e' ops
+       | some (.error err) => !err.isReturned || runValidB e ops
+       | none => true)
+
+theorem runValidB_sound (ops : List Op) : ∀ e : EFile, runValidB e ops = true → RunValid e ops := by
+  induction ops with
+  | nil => intro e _; trivial
+  | cons op ops ih =>
+    intro e h
+    simp only [runValidB, Bool.and_eq_true] at h
+    refine ⟨validArgsAllB_sound e op h.1, ?_, ?_⟩
+    · intro e' ha
+      have := h.2; rw [ha] at this
+      exact ih e' this
+    · intro err ha hr
+      have := h.2; rw [ha] at this
+      simp only [hr, Bool.not_true, Bool.false_or] at this
+      exact ih e this
 
 end ModVerif.Modfile.Edit
